@@ -241,9 +241,14 @@ CENSUS_TIERS = {
 MARATHON_TIERS = {"quick": [("rel", 160), ("dbg", 24)], "thorough": [("rel", 4200), ("dbg", 300)]}
 
 
+PROFILE_OF_TAG = {"rel": "sim-rel", "dbg": "sim-dbg", "reloc": "sim-rel-oc", "dbgnoc": "sim-dbg-noc"}
+# the two cross combinations of debug-assertions / overflow-checks: (runs, extra) per property and tier
+CROSS_TIERS = {"C08": {"quick": (40_000, 300), "thorough": (600_000, 4_000)}, "C09": {"quick": (10_000, 1), "thorough": (150_000, 1)}}
+
+
 def iosim_replay(path):
     rec = json.load(open(path))
-    profile = {"rel": "sim-rel", "dbg": "sim-dbg"}.get(rec.get("profile", "rel"), "sim-rel")
+    profile = PROFILE_OF_TAG.get(rec.get("profile", "rel"), "sim-rel")
     binary, _ = cargo_build("iosim", profile)
     rc, out, err = run([binary, "replay", path], timeout=600)
     return normalise_replay(rc, out + err, path)
@@ -294,6 +299,25 @@ def check_iosim(prop, tier, seed):
     for tag, s in summaries.items():
         for v in s["violations"]:
             found.append({"class": v["class"], "detail": v["detail"], "replay": v["replay"]})
+
+    cross = []
+    cruns, cextra = CROSS_TIERS[prop][tier]
+    for tag in ("reloc", "dbgnoc"):
+        binary, bs = cargo_build("iosim", PROFILE_OF_TAG[tag])
+        build_s += bs
+        out = os.path.join(WORK, "%s-%s-%s.json" % (prop, tier, tag))
+        if os.path.exists(out):
+            os.remove(out)
+        cmd = [binary, sub, "--runs", str(cruns), "--seed", str(seed ^ 0xC2055), "--out", out, "--replay-dir", REPLAYS, "--tag", tag]
+        cmd += ["--long", str(cextra)] if prop == "C08" else ["--sweep", str(cextra)]
+        env = dict(ENV)
+        env["VERIF_WORKERS"] = str(workers())
+        summ, extra_found = run_contained(cmd, env, out, prop, "iosim-" + sub, sub, {"seed": seed ^ 0xC2055, "runs": cruns, "extra": cextra, "index": 0}, profile=tag)
+        found.extend(extra_found)
+        if summ is not None:
+            cross.append({"profile": PROFILE_OF_TAG[tag], "debug_assertions": summ["debug_assertions"], "runs": summ["runs"], "executions": summ["executions"], "wall_s": summ["wall_s"]})
+            for v in summ["violations"]:
+                found.append({"class": v["class"], "detail": v["detail"], "replay": v["replay"]})
 
     census = []
     for side, tag, every32, wide in CENSUS_TIERS[prop][tier]:
@@ -363,6 +387,7 @@ def check_iosim(prop, tier, seed):
         "buffer_size_seen": rel["buffer_size"],
         "samples": rel["samples"][:2] + dbg["samples"][:1],
         "build_s": round(build_s, 2),
+        "cross_profiles": {"what": "a reduced batch of the same runs in the two remaining combinations of the compiler switches: optimised with overflow checks on (sim-rel-oc) and debug assertions on with overflow checks off (sim-dbg-noc)", "batches": cross},
         "marathon": {
             "what": "ONE %s instance over a very long generated stream of records (i64, u32, word; LF / CRLF), read or written as single values, tuples, vectors of tuples and whole lines, with seeded mostly-large deliveries, stretches of small ones and bursts of Interrupted; state that accumulates over a long history (counters, offsets never rebased) is exercised" % ("Reader" if prop == "C08" else "Writer"),
             "runs": [{"profile": "sim-dbg" if m["debug_assertions"] else "sim-rel", "records": m["records_done"], "stream_bytes": m["stream_bytes"], "passes_2_pow_32_bytes": m["stream_bytes"] > (1 << 32), "seam_calls": m["seam_calls"], "partial_transfers": m["partial_transfers"], "interrupted": m["interrupted"], "wall_s": m["wall_s"]} for m in marathon],
@@ -1361,6 +1386,8 @@ def cmd_setup():
         cargo_build("iosim", profile)
         cargo_build("treapsim", profile)
         cargo_build("treapsim_plain", profile)
+    for profile in ("sim-rel-oc", "sim-dbg-noc"):
+        cargo_build("iosim", profile)
     cargo_build("mirisched", "sim-rel")
     if clock_shim() is None:
         log("setup: no C compiler - the clock seam of C16 will be skipped")
